@@ -29,6 +29,12 @@ RULE = (
     "BoundaryProjection(mdg, L, nd): subdomain_to_boundary picks the domain-boundary faces (tag) of each listed "
     "grid in list order, boundary_to_subdomain is its transpose, their product is the identity on boundary cells. "
     "0/1 matrices compared exactly, mortar weights with atol 1e-9. "
+    "History class (about a third of the cases with >= 2 listed grids): ONE SubdomainProjections object serves a sequence of "
+    "2-20 steps: requests of the six kinds (cell/face restriction, prolongation, or both with R@P=I) with the caller's "
+    "working list - one Python list object passed again and again -, requests with fresh list objects, and in-place "
+    "mutations of the working list between requests (reverse, permutation by slice assignment, append, pop); the same "
+    "kind is re-requested after a mutation two times out of three. Every answer is compared with the selection matrix of the "
+    "list as it is at the time of the request. "
     "Non-trivial = at least two listed subdomains or two listed interfaces; distinct = hash of spec."
 )
 BUDGET = {"quick": {"cases": 4000, "seconds": 40}, "thorough": {"cases": 150000, "seconds": 1100}}
@@ -39,6 +45,9 @@ LEVEL_TEXT = ("Exploration: thousands of (md-grid, grid list, order, vector dime
               "generator and their frequencies reported.")
 LEVEL_NOTE = ("Md-grids come from cart_grid (all interfaces have codimension 1; codimension-2 / well interfaces are not "
               "generated). Per-interface mortar projections intf.x(nd) are taken as given (they are the subject of C26). "
+              "Histories exercise SubdomainProjections only: MortarProjections / BoundaryProjection take their lists in the "
+              "constructor, and mutating a constructor list afterwards has no documented meaning (the constructor is given a "
+              "private copy). Whether returned operators are fresh objects is not asserted (not documented). "
               "Finds violations, does not prove absence.")
 DESIGN_REF = "DESIGN.md section 4, C27"
 ASSUMPTIONS = [
@@ -48,7 +57,8 @@ ASSUMPTIONS = [
 ]
 REQUIRED = {"nd1": 0.15, "nd2": 0.15, "nd3": 0.12, "order-permuted": 0.2, "order-md": 0.1, "list-partial": 0.12,
             "list-full": 0.2, "list-has-0d": 0.07, "intf-permuted": 0.1, "neighbour-missing": 0.1, "nm1": 0.05,
-            "nm2": 0.04, "mdg-dim3": 0.1, "sub-permuted": 0.1}
+            "nm2": 0.04, "mdg-dim3": 0.1, "sub-permuted": 0.1, "history": 0.12, "history-inplace-mutation": 0.06,
+            "history-repeat": 0.02, "history-fresh-list": 0.04}
 
 MORTAR_METHODS = [
     # name, to_mortar, primary
@@ -89,8 +99,51 @@ def _spec(draw, tier):
     sds = draw(_ordered_subset(ns))
     k = len(sds)
     pos = draw(_ordered_subset(k))
-    return {"mdg": mdg_s, "nm": nm, "nd": draw(st.sampled_from([1, 2, 3, 2, 3])), "sds": sds, "sub": [sds[p] for p in pos],
+    spec = {"mdg": mdg_s, "nm": nm, "nd": draw(st.sampled_from([1, 2, 3, 2, 3])), "sds": sds, "sub": [sds[p] for p in pos],
             "intfs": draw(_ordered_subset(ni))}
+    # about a third of the cases: a history of requests on ONE SubdomainProjections object
+    if k >= 2 and draw(st.sampled_from([True, False, False, True, False])):
+        spec["hist"] = draw(_history(k))
+    return spec
+
+
+REQ_TYPES = ["cell_restriction", "cell_prolongation", "face_restriction", "face_prolongation", "cell_pair", "face_pair"]
+
+
+@st.composite
+def _history(draw, k):
+    """Requests served by one projection object.  `w0`: positions (in the constructor list) forming the caller's
+    working list W, ONE Python list object that is passed again and again and mutated in place between requests.
+    Steps: {"a": "req", "t": type}             request with the list object W as it is now
+           {"a": "fresh", "t": type, "w": [..]} request with a new list object (positions)
+           {"a": "mut", "m": "reverse"|"perm"|"append"|"pop", ...}  in-place mutation of W."""
+    w0 = draw(st.lists(st.integers(0, k - 1), unique=True, min_size=1, max_size=k))
+    steps = []
+
+    def mutation():
+        m = draw(st.sampled_from(["reverse", "perm", "append", "pop", "perm", "append"]))
+        st_ = {"a": "mut", "m": m}
+        if m == "perm":
+            st_["key"] = draw(st.lists(st.integers(0, 9), min_size=k, max_size=k))
+        elif m in ("append", "pop"):
+            st_["i"] = draw(st.integers(0, k - 1))
+        return st_
+
+    # rounds: [fresh request]? request t ; then (3/4) mutation(s) and a request of the same kind (2/3) or another kind
+    for _ in range(draw(st.sampled_from([1, 2, 2, 3, 3, 4]))):
+        if draw(st.sampled_from([False, False, False, True])):
+            steps.append({"a": "fresh", "t": draw(st.sampled_from(REQ_TYPES)),
+                          "w": draw(st.lists(st.integers(0, k - 1), unique=True, max_size=k))})
+        t = draw(st.sampled_from(REQ_TYPES))
+        steps.append({"a": "req", "t": t})
+        if draw(st.sampled_from([True, True, True, False])):
+            for _ in range(draw(st.sampled_from([1, 1, 2]))):
+                steps.append(mutation())
+            t2 = t if draw(st.sampled_from([True, True, False])) else draw(st.sampled_from(REQ_TYPES))
+            steps.append({"a": "req", "t": t2})
+        else:
+            steps.append({"a": "req", "t": draw(st.sampled_from([t, t, draw(st.sampled_from(REQ_TYPES))]))})
+    return {"w0": w0, "steps": steps}
 
 
 def strategy(tier):
@@ -163,6 +216,71 @@ def _dense(op, mdg):
     return np.asarray(m.todense())
 
 
+def _run_history(pp, mdg, L, nd, nc, nf, hist):
+    """One projection object (built from a private copy of the list), one caller-owned working list W that is
+    mutated IN PLACE between requests.  Every answer must follow W as it is at the time of the request."""
+    labels = ["history"]
+    proj = pp.ad.SubdomainProjections(list(L), nd)
+    pos = list(hist["w0"])            # positions in L of the grids in W (our own bookkeeping)
+    W = [L[p] for p in pos]           # the caller's list object
+    asked = {}                        # request type -> W was mutated since that type was last asked with W?
+
+    def one(kind, which, lst, positions, tag):
+        sizes = nc if kind == "cell" else nf
+        ref = _selection(sizes, positions, nd)
+        if which in ("restriction", "pair"):
+            R = _dense(getattr(proj, kind + "_restriction")(lst), mdg)
+            require(R.shape == ref.shape, f"history-{kind}-restriction-shape", f"{tag}: {R.shape} vs {ref.shape}")
+            require_equal(R, ref, f"history-{kind}-restriction", f"{tag}: restriction does not follow the list as passed")
+        if which in ("prolongation", "pair"):
+            P = _dense(getattr(proj, kind + "_prolongation")(lst), mdg)
+            require(P.shape == ref.T.shape, f"history-{kind}-prolongation-shape", f"{tag}: {P.shape} vs {ref.T.shape}")
+            require_equal(P, ref.T, f"history-{kind}-prolongation", f"{tag}: prolongation does not follow the list as passed")
+        if which == "pair":
+            require_equal(R @ P, np.eye(ref.shape[0]), f"history-{kind}-RP-identity", f"{tag}: R @ P != I")
+
+    for n_step, st_ in enumerate(hist["steps"]):
+        if st_["a"] == "mut":
+            m = st_["m"]
+            if m == "reverse":
+                W.reverse()
+                pos.reverse()
+            elif m == "perm":
+                order = sorted(range(len(W)), key=lambda i: (st_["key"][i], i))
+                W[:] = [W[i] for i in order]          # slice assignment keeps the list object
+                pos[:] = [pos[i] for i in order]
+            elif m == "append":
+                avail = [p for p in range(len(L)) if p not in pos]
+                if not avail:
+                    continue
+                p = avail[st_["i"] % len(avail)]
+                W.append(L[p])
+                pos.append(p)
+            elif m == "pop":
+                if not W:
+                    continue
+                i = st_["i"] % len(W)
+                W.pop(i)
+                pos.pop(i)
+            labels.append("history-mut-" + m)
+            for t in asked:
+                asked[t] = True
+            continue
+        kind, which = st_["t"].split("_")
+        if st_["a"] == "fresh":
+            positions = list(st_["w"])
+            one(kind, which, [L[p] for p in positions], positions, f"step {n_step} (fresh list)")
+            labels.append("history-fresh-list")
+            # a request with another list object replaces whatever the object may remember for this type
+            asked.pop(st_["t"], None)
+            continue
+        if st_["t"] in asked:
+            labels.append("history-inplace-mutation" if asked[st_["t"]] else "history-repeat")
+        one(kind, which, W, list(pos), f"step {n_step} (same list object{', mutated in place' if asked.get(st_['t']) else ''})")
+        asked[st_["t"]] = False
+    return labels
+
+
 def check(spec):
     import porepy as pp
 
@@ -221,6 +339,10 @@ def check(spec):
             blocks = [_dense(getattr(proj, kind + "_prolongation")([g]), mdg) for g in L]
             require_equal(np.hstack(blocks), np.eye(tot * nd), f"sd-{kind}-single-blocks",
                           "single-grid prolongations do not tile the identity in list order")
+
+    # ---------------------------------------------------------------- history on one SubdomainProjections object
+    if spec.get("hist"):
+        labels.extend(_run_history(pp, mdg, L, nd, nc, nf, spec["hist"]))
 
     # ---------------------------------------------------------------- MortarProjections
     nm_cells = [int(i.num_cells) for i in I]
@@ -288,4 +410,4 @@ def check(spec):
     if rows:
         labels.append("has-boundary-cells")
 
-    return {"labels": labels, "nontrivial": len(L) >= 2 or len(I) >= 2}
+    return {"labels": sorted(set(labels)), "nontrivial": len(L) >= 2 or len(I) >= 2}
